@@ -90,7 +90,7 @@ type Spec struct {
 var clauseKw = map[string]bool{
 	"pure": true, "func": true, "extern": true, "iface": true, "lockinv": true, "property": true,
 	"case": true, "requires": true, "ensures": true, "modifies": true, "loop": true, "cut": true,
-	"inline": true, "trusted": true, "field": true, "lemma": true, "guards": true, "invariant": true, "observe": true, "ghostset": true, "axiom": true, "ghostdef": true, "assumed": true, "atcall": true, "tokens": true, "consumes": true, "ghostat": true, "tokentable": true,
+	"inline": true, "trusted": true, "field": true, "lemma": true, "guards": true, "invariant": true, "observe": true, "ghostset": true, "axiom": true, "ghostdef": true, "assumed": true, "atcall": true, "tokens": true, "consumes": true, "ghostat": true, "tokentable": true, "opaque": true,
 	"stable": true, "assert": true, "params": true, "ghost": true,
 }
 
@@ -308,6 +308,9 @@ func ParseSpec(path string) (*Spec, error) {
 					sp.TokenSlots[fs[0]] = fs[2]
 				}
 			}
+		case "opaque":
+			// opaque f, g: inside this function's verification the pure functions f and g are uninterpreted
+			addClause(&Clause{Kind: "opaque", Text: rest, Line: rc.line})
 		case "consumes":
 			e, err := parseExpr(rest, rc.line)
 			if err != nil {
